@@ -156,6 +156,13 @@ class SimRandomState(_RealRandomState):
             a = numpy.where(numpy.arange(total) % 2 == 0, 0.0, EPS1)
         else:
             a = self._sub().random_sample(total)
+        if c.entropy.force_extremes and total >= 2:
+            # both ends of [0, 1) appear in every request
+            p0 = ch.draw("r", total, "force-lo")
+            p1 = (p0 + 1 + ch.draw("r", total - 1, "force-hi")) % total
+            a = numpy.array(a, dtype=float)
+            a[p0] = 0.0
+            a[p1] = EPS1
         return a.reshape(shape) if shape else float(a[0])
 
     def rand(self, *shape):
